@@ -1,5 +1,5 @@
 /* PUBLIC RATIONAL objective: changeObjRational(int i, const Rational&) (+ GMP twin) / changeObjRational(const VectorRational&).
- * CLAUSE_SCALE adds: the real LP is handed its own scale flag (as changeObjReal and every internal twin do). */
+ * Includes: the real LP is handed its own scale flag (as changeObjReal and every internal twin do; without it: fixed defect C). */
 void w_lpmod(PARAMS)
 REQ_STATE
 REQ_CONSISTENT
@@ -17,9 +17,7 @@ __CPROVER_ensures(!AUTO || (gr_calls == 1 && gr_m == CODE && gr_pq1 == qvec1 && 
 __CPROVER_ensures(ONLYREAL || (gq_calls == 1 && gq_m == CODE && gq_i == i && gq_v1 == w1 && gi_calls == 0))
 __CPROVER_ensures(!AUTO || (gr_calls == 1 && gr_m == CODE && gr_i == i && gr_v1 == TOREAL(w1)))
 #endif
-#ifdef CLAUSE_SCALE
 __CPROVER_ensures(!AUTO || gr_scale == scaled)
-#endif
 __CPROVER_ensures(AUTO || gr_calls == 0)
 ENS_INVALIDATED_UNLESS(ONLYREAL)
 __CPROVER_ensures(out[0] == hasBasis && out[4] == nrt && out[5] == nct && out[8] == nr && out[9] == nc && g_lu_clear == 0)
